@@ -15,6 +15,8 @@
 (*   <<"fld", e, F>>         field access e.F  (_.F is fun y -> y.F)       *)
 (*   <<"if", c, a, b>>   <<"pipe", x, f, args>>   <<"papp", f, args>>      *)
 (*   <<"lamn", <<y1, .., yn>>, body>>                                      *)
+(*   <<"self", args>>        a recursive call of the function being typed  *)
+(*   <<"match", x, <<<<case, v or "", body>>, ..>>, <<default>> or <<>>>>  *)
 (* Statements:  <<"let", v, e>>   <<"destr", <<v1, .., vn>>, e>>            *)
 (* A function: [name, params |-> <<names>>, stmts, fin].                    *)
 (*                                                                         *)
@@ -43,6 +45,7 @@ LibSigs ==
   [x \in {} |-> Sig(0, <<>>, Unit)]
   @@ ("int+" :> Sig(0, <<TInt, TInt>>, TInt))                  \* + - * with an int operand
   @@ ("str+" :> Sig(0, <<TStr, TStr>>, TStr))
+  @@ ("same+" :> Sig(1, <<SV(1), SV(1)>>, SV(1)))              \* + between two operands of which neither is typed by itself: one type, also the sum's
   @@ ("cmp" :> Sig(0, <<TInt, TInt>>, TBool))                  \* < > <= >= with an int operand
   @@ ("eq" :> Sig(1, <<SV(1), SV(1)>>, TBool))                 \* = <>
   @@ ("strings.Length" :> Sig(0, <<TStr>>, TInt))
@@ -67,6 +70,10 @@ LibSigs ==
   @@ ("IC2" :> Sig(0, <<Tu(<<TInt, TStr>>)>>, Nm("IU", <<>>)))
   @@ ("IC3" :> Sig(0, <<>>, Nm("IU", <<>>)))
   @@ ("ISome" :> Sig(1, <<SV(1)>>, Nm("IOpt", <<SV(1)>>)))
+
+\* the cases of the (non generic) union IU: payload types
+UnionOfCase == [IC1 |-> "IU", IC2 |-> "IU", IC3 |-> "IU"]
+CasePayload == [IC1 |-> TInt, IC2 |-> Tu(<<TInt, TStr>>), IC3 |-> Unit]
 
 ---------------------------------------------------------------------------
 \* instantiate scheme variable k as the fresh variable t<base+k>
@@ -132,6 +139,24 @@ GenE(sigs, e, env, st) ==
                         IF \E i \in 1..k : e[2][i] = y THEN tys[CHOOSE i \in 1..k : e[2][i] = y] ELSE env[y]]
              b == GenE(sigs, e[3], env2, St(st.eqs, st.n + k))
          IN [t |-> Fu(tys, b.t), st |-> b.st]
+    [] e[1] = "self" ->                                 \* a recursive call: the function's own (monomorphic) parameter and result types
+         LET a == GenArgs(sigs, e[2], env, st)
+             me == env["<self>"]
+         IN [t |-> me[3], st |-> St(a.st.eqs \o [i \in 1..Len(a.ts) |-> <<a.ts[i], me[2][i]>>], a.st.n)]
+    [] e[1] = "match" ->                                \* match x with | C v -> body ... [| _ -> default]: x is of the union, v of the case's payload type,
+                                                        \* all bodies have one type
+         LET u == UnionOfCase[e[3][1][1]]
+             arms == e[3]
+             bodies == [i \in 1..Len(arms) |-> arms[i][3]] \o (IF Len(e[4]) = 0 THEN <<>> ELSE <<e[4][1]>>)
+             envOf(i) == IF i <= Len(arms) /\ arms[i][2] # "" THEN Ext(env, arms[i][2], CasePayload[arms[i][1]]) ELSE env
+             RECURSIVE Go(_, _)
+             Go(i, st0) == IF i > Len(bodies) THEN [ts |-> <<>>, st |-> st0]
+                           ELSE LET h == GenE(sigs, bodies[i], envOf(i), st0)
+                                    r == Go(i + 1, h.st)
+                                IN [ts |-> <<h.t>> \o r.ts, st |-> r.st]
+             g == Go(1, st)
+         IN [t |-> g.ts[1],
+             st |-> St(g.st.eqs \o <<<<env[e[2]], Nm(u, <<>>)>>>> \o [i \in 1..(Len(g.ts) - 1) |-> <<g.ts[1], g.ts[i + 1]>>], g.st.n)]
     [] e[1] = "lam" ->
          LET ty == TV(st.n + 1)
              b == GenE(sigs, e[3], Ext(env, e[2], ty), St(st.eqs, st.n + 1))
@@ -154,11 +179,18 @@ GenStmts(sigs, ss, env, st) ==
 
 PVar(p) == V("p_" \o p)
 \* the constraint problem of a function: [eqs, params, res] as FoInfer!Principal takes it
+\* f.ptypes (optional): parameters whose type is written in the source, <<<<name, type>>, ...>> (a match target must be annotated)
+GivenType(f, p) == IF "ptypes" \in DOMAIN f /\ \E i \in 1..Len(f.ptypes) : f.ptypes[i][1] = p
+                   THEN f.ptypes[CHOOSE i \in 1..Len(f.ptypes) : f.ptypes[i][1] = p][2] ELSE PVar(p)
 Problem(sigs, f) ==
-  LET env0 == [p \in {f.params[i] : i \in 1..Len(f.params)} |-> PVar(p)]
+  LET ptys == [i \in 1..Len(f.params) |-> GivenType(f, f.params[i])]
+      ret == V("ret")
+      \* the function's own name inside its body: parameters -> a type variable that is the type of the body
+      env0 == [p \in {f.params[i] : i \in 1..Len(f.params)} \cup {"<self>"} |->
+                 IF p = "<self>" THEN Fu(ptys, ret) ELSE GivenType(f, p)]
       b == GenStmts(sigs, f.stmts, env0, St(<<>>, 0))
       r == GenE(sigs, f.fin, b.env, b.st)
-  IN [eqs |-> r.st.eqs, params |-> [i \in 1..Len(f.params) |-> PVar(f.params[i])], res |-> r.t]
+  IN [eqs |-> Append(r.st.eqs, <<ret, r.t>>), params |-> ptys, res |-> r.t]
 
 \* generalisation: the type scheme of a top-level function, for its uses in later functions
 RECURSIVE ToScheme(_, _)
